@@ -125,4 +125,45 @@ theorem C19_karabinaShape_not_aliasSafe : ¬ aliasSafe karabinaShape := by
 #guard handle ["t", "m", "0|2", "33:1"] = "bad-op"
 #guard handle ["t", "m", "02|1", "3:1"] = "bad-op"
 
+/-! ### interior aliasing (a lower-level operand pointing INTO the receiver or another operand) -/
+
+/-- a body that reads every parameter cell before its first write to a parameter cell (the `_y := *y` / `yCopy.Set(y)`
+discipline) computes the by-value result wherever its parameter components live: `z.MulByElement(z, &z.A0)`,
+`z.MulBy034(&z.C0.B0, …)`, an operand inside another operand, overlapping operands … -/
+theorem C19_strict_interiorSafe (b : Body) (h : copyInStrict b = true) : interiorSafe b := by
+  intro V I ρ hρ m f
+  refine interior_phase1 I ρ hρ b m (pullAt ρ m) h (fun _ => rfl) (fun _ _ => rfl) f
+
+/-- typed interior aliasing: a body that keeps the component-wise copy-in discipline for its same-typed parameters and reads no
+lower-level operand after its first write to a receiver component computes the by-value result for every whole-object alias
+pattern of the same-typed parameters and EVERY position of the lower-level operands (inside the receiver, inside another operand,
+on their own) -/
+theorem C19_mixed_interiorSafe (low : Nat → Bool) (b : Body) (h : copyInMixed low b = true) : interiorSafeFor low b := by
+  intro V I π ρ hm m f
+  exact simM_run I low π ρ hm b [] m (pullAt ρ m) h (simM_init low π ρ hm m) f
+
+/-- `E3.MulByElement` with its defensive copy `_y := *y` (parameter 2 = the scalar) is interior safe -/
+theorem C19_mulByElementCopy_interiorSafe : interiorSafeFor (fun i => i == 2) mulByElementCopy :=
+  C19_mixed_interiorSafe _ _ (by decide)
+
+example : copyInMixed (fun i => i == 2) mulByElementNoCopy = false := by decide
+
+/-- without the copy the scalar is re-read after `z.A0` was written: with y = &z.A0 (placement of parameter 2's component 0
+at (0,0)), z.A0 = 2, x = (3, 5, 7): z.A1 = 5·(3·2) = 30 instead of 5·2 = 10 (this is what the correspondence run reports for the
+small-field `E2/E4.MulByElement` and for the seeded change in bw6-761 `E3.MulByElement`) -/
+theorem C19_mulByElementNoCopy_not_interiorSafe : ¬ interiorSafeFor (fun i => i == 2) mulByElementNoCopy := by
+  intro h
+  have := h Int intOps id (fun i f => if i = 2 then (0, 0) else (i, f))
+    ⟨rfl, by intro i hi f; have : i ≠ 2 := by simpa using hi
+             simp [this]⟩
+    (fun c => match c with | .obj 0 0 => 2 | .obj 1 0 => 3 | .obj 1 1 => 5 | .obj 1 2 => 7 | _ => 0) 1
+  revert this
+  decide
+
+#guard handle ["t", "MulByElement", "01|2", "33:1f", "2.0.1"] = "same=1 ops=1"
+#guard handle ["t", "MulBy034", "0|1|2|3", "3333:1", "1.0.0,2.0.5,3.0.12"] = "same=1 ops=1"
+#guard handle ["t", "m", "01|2", "33:1", "1.0.0"] = "bad-op"
+#guard handle ["t", "m", "0|1|2", "333:1", "1.2.0,2.0.0"] = "bad-op"
+#guard handle ["t", "m", "0|1", "33:1", "1.1.0"] = "bad-op"
+
 end GV.Alias
